@@ -15,6 +15,21 @@ PROPS = {
         ],
         'assumptions': [],
     },
+    'C05': {
+        'design_ref': 'DESIGN.md section 6.2',
+        'verus_units': [
+            {'template': 'units/c05_strings.rs.in', 'modes': [[]], 'canary': True},
+            {'template': 'units/c05_collections.rs.in', 'modes': [['MODE_OK'], ['MODE_ERR']], 'canary': True},
+        ],
+        'kani': [],
+        'not_covered': [
+            'parsing of [a:b:c] / [::c] and the emitter\'s choice of helper and argument order (syntax-tree / TokenStream code; see C01)',
+            'HashMap\'s own behaviour is vstd\'s model (obeys_key_model)',
+        ],
+        'assumptions': [
+            'A1: sequence and string lengths are <= isize::MAX (Rust allocation invariant), needed for `len as i64`',
+        ],
+    },
 }
 
 GLOBAL_ASSUMPTIONS = [
